@@ -117,7 +117,7 @@ CHECKS = {
                      "C15_NoPanic (panic hook count, per quiescence point), C15_Quiesces (a settle that never returns = spin, watchdog), C15_Cpu (<= 2 s thread CPU per step), C15_Alloc "
                      "(<= 64 MiB peak growth per step), C15_IllegalHandled (a frame the observer classifies as illegal is answered by a close / end / detach carrying an error or by "
                      "tearing the transport down), C15_NoHang (no probe call is left pending at the end). Further state `resuming`: a sender with an unsettled delivery is being resumed and the peer's attach carries a hostile unsettled map "
-                     "(positions beyond the message, unknown tags, 300 of them, states no receiver can be in, the incomplete flag); begins on channels above the agreed channel-max.",
+                     "(positions beyond the message, unknown tags, 300 of them, states no receiver can be in, the incomplete flag); state `resumingR`: the same for a receiving link that holds an accepted, not yet settled delivery, plus resuming transfers nobody asked for (unknown tag, aborted, a second copy); begins on channels above the agreed channel-max.",
                 note="model check: the connection state machine (ConnLife.tla) shows that closing on an illegal frame is compatible with C12; 'other connections unaffected' is not exercised yet"),
     "C16": dict(technique="TLC model check of recv / send as program-counter machines with a Cancel action at every await (Cancel.tla, incl. the refuted buffer-in-future variant); TLC-enumerated cancellation scripts (CancelGen.tla) executed lock-step with capacity-1 channels and a tiny transport pipe so that sends suspend at internal awaits; traces validated by the TLA+ observer; plus long mixed histories sampled by TLC's simulation mode from a state-aware generator (MixGen.tla), executed and validated the same way",
                 design="4/C16",
